@@ -2,12 +2,13 @@
 Module that implements generic functions about pairwise based rank aggregation algorithm. Module for code factorisation.
 """
 
-from typing import Tuple, Set
+from typing import Tuple, Set, List, Dict, Iterable
 from itertools import combinations
 from numba import jit
 from igraph import Graph
 from numpy import ndarray, shape, zeros, asarray, logical_or, where, logical_and, ones, column_stack, newaxis
 from corankco.scoringscheme import ScoringScheme
+from corankco.element import Element
 
 
 @jit("float64[:, :, :](int32[:, :], float64[:, :], float64[:], int32, int32)", nopython=True, cache=True)
@@ -203,6 +204,26 @@ class PairwiseBasedAlgorithm:
         graph_of_elements.add_edges(list(column_stack(where(after_not_cheapest))))
 
         return graph_of_elements
+
+    @staticmethod
+    def buckets_with_elements_of_dataset(buckets_sub_problem: Iterable[Set[Element]],
+                                         elements_dataset: Set[Element]) -> List[Set[Element]]:
+        """
+        Translate the buckets of a consensus computed on a sub-problem into buckets of elements of the initial dataset.
+
+        The elements of a Dataset are converted to int when all of them can be. A sub-problem of a dataset of str
+        elements may thus have int elements (for instance the projection of {"07", "b"} on {"07"} is {7}): a consensus
+        of the sub-problem must be translated back before being concatenated into a consensus of the initial dataset.
+
+        :param buckets_sub_problem: the buckets of a consensus ranking of the sub-problem
+        :param elements_dataset: the elements of the initial dataset on which the sub-problem was defined
+        :return: the same buckets, with the elements of the initial dataset
+        """
+        if all(element.can_be_int() for element in elements_dataset):
+            back: Dict[Element, Element] = {Element(int(str(element))): element for element in elements_dataset}
+        else:
+            back = {Element(str(element)): element for element in elements_dataset}
+        return [{back[element] for element in bucket} for bucket in buckets_sub_problem]
 
     @staticmethod
     def can_be_all_tied(id_elements_to_check: Set[int], cost_matrix: ndarray) -> bool:
